@@ -371,6 +371,7 @@ def corr(ctx):
 
 SECRET = "SECRET-7f3a"
 _opened = []
+_written = []      # files opened for writing / created while a case runs
 _hook_on = [False]
 _hook_installed = [False]
 
@@ -378,6 +379,30 @@ _hook_installed = [False]
 def _audit(event, args):
     if _hook_on[0] and event == "open" and args and isinstance(args[0], str):
         _opened.append(args[0])
+        mode, flags = (args[1] if len(args) > 1 else None), (args[2] if len(args) > 2 else 0)
+        if (isinstance(mode, str) and any(c in mode for c in "wax+")) or (
+                isinstance(flags, int) and flags & (os.O_WRONLY | os.O_RDWR | os.O_CREAT)):
+            _written.append(args[0])
+
+
+def spec_escapes(caller_uri, uri):
+    """the property's reading, written from its text: does `uri` - taken relative to the directory of the calling
+    template's URI unless it starts with a slash - climb above the lookup root at any point?  (A path that dips above
+    the root and comes back by naming a directory is outside too: the root's own name is not part of the URI space.)"""
+    u = uri
+    if caller_uri is not None and not u.startswith("/"):
+        u = posixpath.dirname(caller_uri) + "/" + u
+    depth = 0
+    for c in u.replace("\\", "/").split("/"):
+        if c in ("", "."):
+            continue
+        if c == "..":
+            depth -= 1
+            if depth < 0:
+                return True
+        else:
+            depth += 1
+    return False
 
 
 def build_tree(base):
@@ -466,6 +491,23 @@ def detour_uri(rng):
     return rng.choice(["", "/", "\\", "//"]) + body
 
 
+def overclimb_uri(rng):
+    """a RELATIVE URI that climbs above the root - by more than any caller is deep - and then names a file that
+    exists INSIDE the root: it must be refused (it leaves the root on the way), and a lookup that clamps the climb at
+    the root would serve the in-root file instead"""
+    target = rng.choice(VALID_TARGETS)
+    sep = lambda: rng.choice(["/", "/", "\\", "//", "/./"])          # noqa: E731
+    body = ""
+    if rng.random() < 0.4:
+        body += rng.choice(["sub", "x", "..a"]) + sep()
+        climbs = rng.randint(4, 7)
+    else:
+        climbs = rng.randint(3, 6)
+    for _ in range(climbs):
+        body += ".." + sep()
+    return body + sep().join(target) if rng.random() < 0.5 else body + "/".join(target)
+
+
 def _inside(p, tops):
     rp = os.path.realpath(p)
     return any(rp.startswith(os.path.realpath(t) + os.sep) for t in tops)
@@ -489,6 +531,7 @@ def _check_case(base, dirs, md, how, uri):
     else:
         lk = TemplateLookup(directories=dirs, module_directory=md)
     _opened.clear()
+    _written.clear()
     _hook_on[0] = True
     out = None
     t = None
@@ -523,6 +566,16 @@ def _check_case(base, dirs, md, how, uri):
         return "secret content reached the output"
     if has_said_yes and t is None:
         return "has_template answered True for a URI that get_template refuses"
+    # the property text directly: a URI that resolves outside the directories raises TemplateLookupException
+    if how != "template" and spec_escapes(None if how in ("get", "has") else how, uri):
+        if out is not None or t is not None or has_said_yes:
+            return "a URI that climbs above the lookup root did not raise TemplateLookupException (%s)" % (
+                "rendered %r" % out[:60] if out is not None else "template returned")
+    # generated module files (and their temporary files) are created only beneath module_directory
+    for p in _written:
+        ap = os.path.realpath(os.path.abspath(p))
+        if md is None or not ap.startswith(os.path.realpath(mods) + os.sep):
+            return "file opened for writing outside module_directory: %s" % ap
     if t is not None and how != "template" and t.filename is not None and not _inside(t.filename, roots):
         return "template file %s outside the roots" % t.filename
     if how == "template" and t is not None and not _inside(t.filename, roots):
@@ -558,6 +611,7 @@ def oracle(ctx):
         n = 1500 if ctx.quick else 40000
         uris = [attack_uri(ctx.rng, base) for _ in range(n)]
         uris += [detour_uri(ctx.rng) for _ in range(n // 2)]
+        uris += [overclimb_uri(ctx.rng) for _ in range(n // 3)]
         # plus a slice of the exhaustive enumeration with real names substituted
         # (a -> index.html, a.. -> rootx, ..a kept: names that exist in the tree)
         for u in itertools.islice(enum_uris(3), 0, None, 37 if ctx.quick else 3):
